@@ -389,7 +389,7 @@ def corpus_cases(prop):
 
 def run(ctx):
     rng = ctx.rng
-    ctx.set_budget(50 if not ctx.thorough() else 780)
+    ctx.set_budget(50 if not ctx.thorough() else 600)
     corpus = corpus_cases(PROP)
     explore(ctx, [c for c in corpus if not c.get("rich")], label="corpus: ")
     explore_untraced(ctx, [c for c in corpus if c.get("rich")], label="corpus: ")
@@ -397,7 +397,7 @@ def run(ctx):
     n_gather = 3000 if ctx.thorough() else 200
     batch = 130 if not ctx.thorough() else 500
     done = 0
-    while done < n and ctx.time_left() > 8:
+    while done < n and ctx.time_left() > (8 if not ctx.thorough() else 180):   # leave room for the gather stream
         cases = [gen_case(rng) for _ in range(min(batch, n - done))]
         ws = explore(ctx, cases)
         if done == 0:
